@@ -14,3 +14,4 @@ claim('C14', 'proof',
       "scipy.stats.poisson.logpmf is the reference (uninterpreted); closed forms of gamma.logpdf and nbinom.logpmf as documented by scipy; Log/Gammaln uninterpreted with instantiated log laws for positive arguments; real arithmetic; numpy broadcasting/reshape as modelled in pyvc/lib.py.",
       "contract-based deductive verification (symbolic execution of the real constructors and methods, element-level VCs, z3 nlsat on purified identities), native replay",
       "DESIGN.md 4/C14")
+# (claims for C04/C05/C10/C16 are added when their contracts are complete)
